@@ -147,7 +147,31 @@ func runNeg(c *NegCase) *sim.Outcome {
 		}
 		return true
 	}
-	switch c.Form % 6 {
+	switch c.Form % 7 {
+	case 6:
+		// end to end in plaintext state: what A's user sends is what B's user reads
+		if c.PolA&sim.PolRequire != 0 {
+			o.Discard = true
+			return o
+		}
+		cs := w.Send(0, c.Text)
+		if cs.Err != nil || len(cs.Out) != 1 || !bytes.HasPrefix(cs.Out[0], c.Text) {
+			return o.Fail("C16/plaintext-send", "Send of a %d-byte text in plaintext state (policy %#x) emitted %d messages, the first not starting with the text (err=%v)", len(c.Text), c.PolA, len(cs.Out), cs.Err)
+		}
+		tagged := len(cs.Out[0]) > len(c.Text)
+		if tagged != (c.PolA&sim.PolSendWS != 0 && c.PolA&3 != 0) {
+			return o.Fail("C16/plaintext-send", "whitespace tag appended=%v under policy %#x", tagged, c.PolA)
+		}
+		cc := w.Deliver(0, 0)
+		want := c.Text
+		if c.PolB&3 == 0 {
+			want = cs.Out[0] // OTR disabled at B: even the tag passes through
+		}
+		if !bytes.Equal(cc.Plain, want) {
+			return o.Fail("C16/plaintext-changed", "a %d-byte text sent in plaintext state (sender policy %#x) arrived changed at the peer (policy %#x)", len(c.Text), c.PolA, c.PolB)
+		}
+		o.Class(fmt.Sprintf("end-to-end-tagged-%v", tagged))
+		o.NonTrivial = tagged
 	case 0:
 		cq := w.Query(0)
 		offered := allowedSet(c.PolA)
@@ -314,8 +338,12 @@ var craftedQueries = []string{"?OTRv2?", "?OTRv3?", "?OTRv23?", "?OTRv32?", "?OT
 func TestProp_C16_Negotiate(t *testing.T) {
 	defer sim.MarkCompleted("C16negotiate", false)
 	rapid.Check(t, func(rt *rapid.T) {
-		c := &NegCase{PolA: genPol(rt, "polA"), PolB: genPol(rt, "polB"), Form: rapid.IntRange(0, 5).Draw(rt, "form")}
+		c := &NegCase{PolA: genPol(rt, "polA"), PolB: genPol(rt, "polB"), Form: rapid.IntRange(0, 6).Draw(rt, "form")}
 		switch c.Form {
+		case 6:
+			// lengths around allocation size classes matter for buffer reuse
+			n := rapid.SampledFrom([]int{0, 1, 30, 200, 256, 257, 260, 288, 290, 300, 512, 513, 520, 540, 600, 1000, 1024, 1025, 2000, 4096, 5000}).Draw(rt, "len") + rapid.IntRange(0, 9).Draw(rt, "delta")
+			c.Text = bytes.Repeat([]byte("ab cd."), n/6+1)[:n]
 		case 1:
 			if rapid.Bool().Draw(rt, "listed") {
 				c.Offer = rapid.SampledFrom(craftedQueries).Draw(rt, "offer")
